@@ -589,7 +589,24 @@ func (e *Engine) globalPtr(st *State, g *ssa.Global) Ptr {
 		id = e.nextObj
 		e.globals[g] = id
 		t := g.Type().(*types.Pointer).Elem()
-		e.base[id] = &Obj{cells: appendZero(make([]Value, 0, sizeOf(t)), t), owner: 0, note: "global " + g.String()}
+		cells := appendZero(make([]Value, 0, sizeOf(t)), t)
+		// package context is not initialised (its init closes a channel); its two sentinel errors are given their values here
+		if g.Pkg != nil && g.Pkg.Pkg.Path() == "context" && len(cells) == 1 {
+			switch g.Name() {
+			case "Canceled":
+				if ep := e.prog.ImportedPackage("errors"); ep != nil {
+					e.nextObj++
+					sid := e.nextObj
+					e.base[sid] = &Obj{cells: []Value{"context canceled"}, owner: 0, note: "context.Canceled"}
+					cells[0] = Iface{T: types.NewPointer(ep.Type("errorString").Type()), V: Ptr{Obj: sid}}
+				}
+			case "DeadlineExceeded":
+				if dt := g.Pkg.Type("deadlineExceededError"); dt != nil {
+					cells[0] = Iface{T: dt.Type(), V: Agg{}}
+				}
+			}
+		}
+		e.base[id] = &Obj{cells: cells, owner: 0, note: "global " + g.String()}
 	}
 	return Ptr{Obj: id}
 }
